@@ -466,6 +466,24 @@ func semantic(name string, o outcome, env envSetting, known func(string) bool, p
 			}
 		}
 	}
+	// whatever the environment asked for, the colour count of the returned entry must still
+	// agree with its indexed colour strings (every index below Colors selects that palette entry)
+	if ti.Colors > 0 && ti.SetFg != "" && ti.SetBg != "" && isSGR(ti.SetFg) {
+		n := ti.Colors
+		if n > 256 {
+			viol("colors-range", fmt.Sprintf("Colors=%d exceeds what the palette strings can address", n))
+			n = 256
+		}
+		for i := 0; i < n; i++ {
+			pf, e1 := decodePen(ti.TParm(ti.SetFg, i))
+			pb, e2 := decodePen(ti.TParm(ti.SetBg, i))
+			want := vt.Color{Kind: vt.Indexed, V: int32(i)}
+			if len(e1)+len(e2) > 0 || pf.Fg != want || pb.Bg != want {
+				viol("colour-string", fmt.Sprintf("Colors=%d but colour %d is emitted as fg %q -> %v, bg %q -> %v", ti.Colors, i, ti.TParm(ti.SetFg, i), pf.Fg, ti.TParm(ti.SetBg, i), pb.Bg))
+				break
+			}
+		}
+	}
 	if kind == "exact" && !wantTrue {
 		// nothing may have been changed relative to the registered entry
 		if !reflect.DeepEqual(*ti, func() terminfo.Terminfo { c := *b; c.Aliases = append([]string(nil), b.Aliases...); return c }()) {
